@@ -12,7 +12,7 @@ Steps (all from /repo's current working tree):
   5. run the real code on generated inputs (obs), the model and the oracles on the same lines (driver)
   6. verdict, replay file, evidence file
 """
-import argparse, fcntl, hashlib, json, os, re, subprocess, sys, time
+import argparse, fcntl, hashlib, json, os, re, shutil, subprocess, sys, time
 
 VERIF = os.path.dirname(os.path.dirname(os.path.abspath(__file__)))
 REPO = os.environ.get("SOLSTAT_REPO", "/repo")
@@ -60,9 +60,59 @@ def harness_bin(name, release=False):
     return os.path.join(TARGET, "release" if release else "debug", name)
 
 
+GEN = os.path.join(LEAN, "Solstat", "Gen")
+BASELINE = os.path.join(LEAN, "GenBaseline")
+FALLBACKS = {}   # generated file -> residue entries that made the check fall back on the baseline copy
+
+
+def residues_of(text):
+    """non-empty `def …Residue : List String := [..]` lists of a generated file (the frame residue is informational)"""
+    out = {}
+    for m in re.finditer(r"def (\w*[rR]esidue) : List String := \[(.*?)\]\n", text, re.S):
+        if m.group(1) == "entryFrameResidue":
+            continue
+        items = re.findall(r'"((?:[^"\\]|\\.)*)"', m.group(2))
+        if items:
+            out[m.group(1)] = items
+    return out
+
+
 def regenerate():
-    r = run([harness_bin("extract"), "--repo", REPO, "--out", os.path.join(LEAN, "Solstat", "Gen")])
-    return r.returncode == 0, (r.stderr or "") + (r.stdout or "")
+    """Re-run the translator.  A table it could read completely replaces the previous one.  A table it could NOT read
+    completely (non-empty residue: source constructs outside what the translator interprets, typically after a
+    refactoring) is not used: the reviewed baseline copy stays in place, the fact is recorded, and the tie between
+    that part of the model and the code is then the correspondence alone, which is widened (thorough generators)."""
+    tmp = os.path.join(BUILD, f"gen_tmp_{os.getpid()}")
+    shutil.rmtree(tmp, ignore_errors=True)
+    os.makedirs(tmp)
+    r = run([harness_bin("extract"), "--repo", REPO, "--out", tmp])
+    log = (r.stderr or "") + (r.stdout or "")
+    if r.returncode != 0:
+        shutil.rmtree(tmp, ignore_errors=True)
+        return False, log
+    FALLBACKS.clear()
+    for f in sorted(os.listdir(tmp)):
+        text = open(os.path.join(tmp, f), encoding="utf-8").read()
+        res = residues_of(text)
+        base = os.path.join(BASELINE, f)
+        if res and os.path.exists(base):
+            FALLBACKS[f] = res
+            text = open(base, encoding="utf-8").read()
+        dst = os.path.join(GEN, f)
+        if not os.path.exists(dst) or open(dst, encoding="utf-8").read() != text:
+            open(dst, "w", encoding="utf-8").write(text)
+    # what the translator says about the per-file entry points (informational)
+    try:
+        t = open(os.path.join(tmp, "Patterns.lean"), encoding="utf-8").read()
+        m = re.search(r"def entryFrameResidue : List String := \[(.*?)\]\n", t, re.S)
+        FALLBACKS_INFO["entry_frame"] = re.findall(r'"((?:[^"\\]|\\.)*)"', m.group(1)) if m else []
+    except Exception:
+        pass
+    shutil.rmtree(tmp, ignore_errors=True)
+    return True, log
+
+
+FALLBACKS_INFO = {}
 
 
 def lake_build(targets):
@@ -384,6 +434,13 @@ def main():
             run_family(fam, fargs, a.seed, tier, "")
             if P.get("release_too") and tier == "thorough":
                 run_family(fam, fargs, a.seed, tier, "_rel")
+        # a table of the model that the translator could not regenerate is tied to the code by the correspondence
+        # alone: explore with the thorough generators too
+        if FALLBACKS and tier == "quick":
+            notes.append("translator residue: " + "; ".join(f"{f}: {sorted(r)}" for f, r in FALLBACKS.items()) +
+                         " -- the reviewed baseline tables are used and the correspondence is widened (thorough generators)")
+            for fam, fargs in P["obs"]:
+                run_family(fam, fargs, a.seed + 104729, "thorough", "_fallback")
         # widen the search when something no longer checks but no failing input has been seen yet
         if (broken or disagreements) and not viols and tier == "quick" and P.get("widen", True):
             notes.append("obligation/correspondence broken without a failing input in the quick run: widened search")
@@ -492,6 +549,7 @@ def main():
         "driver": driver_stats,
         "no_longer_checks": [{k: (v if k != "log" else v[-500:]) for k, v in b.items()} for b in broken],
         "notes": notes,
+        "translator": {"fallback_to_baseline": {f: r for f, r in FALLBACKS.items()}, "entry_frame_residue": FALLBACKS_INFO.get("entry_frame", [])},
     }
     cov.update(extra)
     ev = {"property_id": pid, "tier": tier, "seed": a.seed, "level": "proof", "coverage": cov,
